@@ -154,7 +154,7 @@ package remote
 //@ extern func fdns.IsNotFound(err error) bool
 //@   ensures result == notFoundErr(err)
 //@ func (*daneDelivery).CheckConn
-//@   prop C05
+//@   prop C05 C13
 //@   requires c != nil && c.c != nil && !chainOK
 //@   requires tlsState.HandshakeComplete ==> len(tlsState.PeerCertificates) >= 1
 //@   modifies *
@@ -183,6 +183,7 @@ package remote
 // connect (STARTTLS with fall-back) is assumed at its call site for its frame only: it works on the smtpconn.C of the
 // connection (and the go-smtp client it creates); which TLS level it reports for which handshake is NOT decided here.
 //@ extern func (*remoteDelivery).attemptMX#connect$call(rd *remoteDelivery, ctx context.Context, c mxConn, host string, tlsCfg *tls.Config) (tlsLevel module.TLSLevel, tlsErr error, err error)
+//@   requires tlsCfg == rd.rt.tlsConfig
 //@   modifies *conn.C
 //@   ensures err == nil ==> conn.C.cl != nil && fresh(conn.C.cl) && !conn.C.sockClosed
 //@   ensures err != nil ==> conn.C.cl == nil || conn.C.sockClosed
@@ -311,7 +312,7 @@ package remote
 //@ pure func reachesTLSA(r fdns.ExtResolver, mx string) bool = ckErr(r, mx) == nil && ckName(r, mx) != "" && (ckAD(r, mx) || (ckName(r, mx) != mx && cnErr(r, mx) == nil && cnAD(r, mx)))
 //@ pure func cnameHasRecs(r fdns.ExtResolver, mx string) bool = ckName(r, mx) != mx && tlsaAD(r, ckName(r, mx)) && len(tlsaRecs(r, ckName(r, mx))) != 0
 //@ func (*daneDelivery).discoverTLSA
-//@   prop C05
+//@   prop C05 C13
 //@   requires c != nil && c.c != nil && c.c.extResolver != nil
 //@   ensures ckErr(*c.c.extResolver, mx) != nil ==> result1 != nil
 //@   ensures ckErr(*c.c.extResolver, mx) == nil && !ckAD(*c.c.extResolver, mx) && ckName(*c.c.extResolver, mx) != "" && ckName(*c.c.extResolver, mx) != mx && cnErr(*c.c.extResolver, mx) != nil ==> result1 != nil
@@ -319,3 +320,23 @@ package remote
 //@   ensures reachesTLSA(*c.c.extResolver, mx) && !(ckName(*c.c.extResolver, mx) != mx && hardTLSAErr(*c.c.extResolver, ckName(*c.c.extResolver, mx))) && !cnameHasRecs(*c.c.extResolver, mx) && hardTLSAErr(*c.c.extResolver, mx) ==> result1 != nil
 //@   ensures result1 == nil && len(result0) != 0 ==> (cnameHasRecs(*c.c.extResolver, mx) && result0 == tlsaRecs(*c.c.extResolver, ckName(*c.c.extResolver, mx))) || (tlsaAD(*c.c.extResolver, mx) && result0 == tlsaRecs(*c.c.extResolver, mx))
 //@   ensures result1 == nil && len(result0) != 0 ==> reachesTLSA(*c.c.extResolver, mx)
+
+// connect (STARTTLS with fall-back to unauthenticated TLS, then plaintext). Under contract for what the fall-back may
+// touch: it works on a private copy of the target's TLS configuration - the shared configuration (and its
+// InsecureSkipVerify flag in particular) is never modified, so a verification failure for one MX cannot switch
+// verification off for later connections - and a level of TLSAuthenticated is reported only while the copy it
+// handshakes with still verifies certificates.
+//@ extern func (*tls.Config).Clone(c *tls.Config) *tls.Config
+//@   ensures c != nil ==> result != nil && fresh(result) && result.InsecureSkipVerify == c.InsecureSkipVerify
+//@   ensures c == nil ==> result == nil
+//@ func (*remoteDelivery).connect
+//@   prop C05
+//@   modifies *
+//@   requires rd != nil && rd.rt != nil && conn.C != nil && (rd.rt.tlsConfig != nil ==> !rd.rt.tlsConfig.InsecureSkipVerify) && tlsCfg == rd.rt.tlsConfig
+//@   ensures rd.rt == old(rd.rt) && rd.rt.tlsConfig == old(rd.rt.tlsConfig)
+//@   ensures rd.rt.tlsConfig != nil ==> !rd.rt.tlsConfig.InsecureSkipVerify
+//@   ensures result2 == nil && result0 == module.TLSAuthenticated && cur(tlsCfg) != nil ==> !cur(tlsCfg).InsecureSkipVerify
+//@   loop 0 invariant cur(tlsLevel) == module.TLSAuthenticated && cur(tlsCfg) != nil ==> !cur(tlsCfg).InsecureSkipVerify
+//@   loop 0 invariant rd.rt == old(rd.rt) && rd.rt.tlsConfig == old(rd.rt.tlsConfig) && (rd.rt.tlsConfig != nil ==> !rd.rt.tlsConfig.InsecureSkipVerify && cur(tlsCfg) != rd.rt.tlsConfig)
+//@ func isVerifyError
+//@   prop C05
